@@ -180,6 +180,22 @@ pub fn run(ctx: &mut Ctx) {
         ctx.require(&r, &["divide_by_zero", "nan_operand", "divide_by_infinity_is_zero", "zero_times_infinity", "infinite_result", "ok_exact", "ok_truncated", "interval_range_error"]);
     }
 
+    // a complete small product: every month / microsecond count of a window x every multiple of 1/16 of a window
+    let (xw, kw): (i64, i64) = if ctx.thorough() { (1200, 4096) } else { (120, 512) };
+    ctx.bound("complete_small_product", json!(format!("counts -{xw}..={xw} x operands i/16 for |i| <= {kw}")));
+    let nk = (2 * kw + 1) as u64;
+    let r = ctx.sweep_each("complete_small_product", "every count in the window (as months, as microseconds and as microseconds x 86,400,000,000 / 1,200 for day-sized values) x every operand i/16 in the window x {mul, div}", (2 * xw + 1) as u64 * nk * 2, 4096, |idx, acc| {
+        let div = idx % 2 == 1;
+        let k = ((idx / 2) % nk) as i64 - kw;
+        let x = (idx / 2 / nk) as i64 - xw;
+        let kf = k as f64 / 16.0;
+        one(acc, idx, Recv::Ym, x, kf, div);
+        one(acc, idx, Recv::Dt, x, kf, div);
+        one(acc, idx, Recv::Dt, x * 72_000_000, kf, div);
+        if x >= 0 { one(acc, idx, Recv::Time, x * 71_999_999, kf, div); }
+    });
+    ctx.require(&r, &["divide_by_zero", "ok_exact", "ok_truncated"]);
+
     // hidden state: every ordered pair of (receiver, operand) cases of a small structured alphabet, each pair on a
     // fresh thread; the second result must be what the reference says for the second case alone
     let hrecv: Vec<i64> = vec![0, 1, 2, 3, 11, 12, 13, 16, 24, 25, 1000, 1001];
